@@ -142,7 +142,7 @@ func (w *world) healAll() {
 			w.restart(i)
 		}
 	}
-	w.res.Trace.Add("heal-all")
+	w.tr("heal-all")
 	w.lastFault = w.now()
 	synctest.Wait()
 	w.afterStep()
